@@ -37,7 +37,8 @@ if os.path.realpath(REPO) != "/repo":
     _txt = open(_ct).read().replace('path = "/repo"', 'path = "%s"' % os.path.realpath(REPO))
     open(_ct, "w").write(_txt)
     _cc = os.path.join(_alt, "harness", ".cargo", "config.toml")
-    open(_cc, "w").write(open(_cc).read().replace(TARGET_DIR, os.path.join(_alt, "target")))
+    _cfg = open(_cc).read().replace(TARGET_DIR, os.path.join(_alt, "target"))
+    open(_cc, "w").write(_cfg)
     COQ = os.path.join(_alt, "coq")
     HARNESS = os.path.join(_alt, "harness")
     TARGET_DIR = os.path.join(_alt, "target")
